@@ -12,16 +12,23 @@ REAL = ["train_* routines", "buffers", "JAX/Flax/Optax", "multi-task schedulers 
 STUB = ["environment (SimEnv)", "action-space sampler", "train_st callback (StubTrainST) in scheduler plans"]
 ASSUMPTIONS = ["DQN family: the update gate checked is `step > batch_size` (the gate named in the property's anchors)",
                "an extra env.reset() after the last episode is not a violation"]
-TIERS = {"quick": {"runs": 66}, "thorough": {"runs": 1500}}
-REQUIRED = ["budget_exit", "episode_limit_exit", "resume", "warmup_iterations_observed", "returned_counter_exact"]
+TIERS = {"quick": {"runs": 99}, "thorough": {"runs": 2400}}
+REQUIRED = ["budget_exit", "episode_limit_exit", "resume", "warmup_iterations_observed", "returned_counter_exact", "scheduler_totals_exact", "ucb_argmax_checked", "initial_rounds", "protocol_misuse_rejected", "rollouts_checked", "several_tasks_trained"]
 REQUIRED_QUICK = ["budget_exit", "episode_limit_exit", "resume"]
-SHRINK_LISTS = [["env", "script"], ["chain"]]
+SHRINK_LISTS = [["env", "script"], ["chain"], ["ops"]]
 SHRINK_INTS = []
 CLAUSES = ["C11.a", "C11.b", "C11.c", "C11.d", "C11.e"]
+PLAN_LIMIT_S = 120
 ADAPTERS = ["ddpg", "td3", "td3_lap", "sac", "dqn", "nature_dqn", "ddqn", "ddqn_per", "td7", "mrq", "pets"]
 
 
 def make_plan(rng, tier, index):
+    if index % 3 == 2:
+        from rlsim import schedsim
+        plan = schedsim.make_plan(rng, index // 3)
+        plan.update(check=PROPERTY, kind="sched")
+        return plan
+    index = index - index // 3 - (1 if index % 3 == 2 else 0)
     name = ADAPTERS[index % len(ADAPTERS)]
     ad = trainsim.ADAPTERS[name]
     plan = trainplan.base_plan(rng, PROPERTY, CLAUSES, name, T=rng.choice([10, 16, 24, 36]) if name != "pets" else rng.choice([8, 12]))
@@ -45,6 +52,10 @@ def make_plan(rng, tier, index):
 
 
 def normalise(plan):
+    if plan.get("kind") == "sched":
+        if plan.get("sched_kind") == "rollout" and not plan.get("script"):
+            plan["script"] = [{"len": 1, "end": "trunc"}]
+        return plan
     if not plan["chain"]:
         plan["chain"] = [{"total_timesteps": 5, "total_episodes": None}]
     return plan
